@@ -227,17 +227,23 @@ bool File::readByteString(ByteString& value)
 		return false;
 	}
 
-	// Read the byte string from the file
-	value.resize(len);
+	// Read the byte string from the file in pieces: a corrupt length field
+	// must not make us allocate more memory than the file has bytes
+	value.resize(0);
 
-	if (len == 0)
-	{
-		return true;
-	}
+	unsigned char buf[4096];
 
-	if (fread(&value[0], 1, len, stream) != len)
+	while (len != 0)
 	{
-		return false;
+		size_t n = (len < sizeof(buf)) ? (size_t) len : sizeof(buf);
+
+		if (fread(buf, 1, n, stream) != n)
+		{
+			return false;
+		}
+
+		value += ByteString(buf, n);
+		len -= n;
 	}
 
 	return true;
